@@ -73,3 +73,52 @@ def hh_charge(q, pka, ph):
 
 def total_charge(sites, ph):
     return sum(hh_charge(q, pka, ph) for q, pka in sites)
+
+
+def hy36_classify(s):
+    """Classify a field: ('decimal'|'upper'|'lower', sign, body) for well-formed fields, 'malformed', or
+    'unspecified' (a sign followed by a letter form: the format description does not cover it).
+    Surrounding blanks are padding.  Only ASCII is well-formed."""
+    body = s.strip(" ")
+    if body != s.strip():
+        return "unspecified"            # other whitespace used as padding: not covered by the statement
+    sign = 1
+    if body.startswith("-"):
+        sign = -1
+        body = body[1:]
+    if body == "":
+        return "malformed"
+    first = body[0]
+    if first in string.digits:
+        return ("decimal", sign, body) if all(c in string.digits for c in body) else "malformed"
+    if first in string.ascii_uppercase:
+        ok = all(c in _DIGITS_UPPER for c in body)
+        if not ok:
+            return "malformed"
+        return "unspecified" if sign < 0 else ("upper", sign, body)
+    if first in string.ascii_lowercase:
+        ok = all(c in _DIGITS_LOWER for c in body)
+        if not ok:
+            return "malformed"
+        return "unspecified" if sign < 0 else ("lower", sign, body)
+    return "malformed"
+
+
+def hy36_decode_ref(s):
+    """Reference decoder for well-formed fields (None for malformed/unspecified)."""
+    c = hy36_classify(s)
+    if not isinstance(c, tuple):
+        return None
+    kind, sign, body = c
+    w = len(body)
+    if kind == "decimal":
+        return sign * int(body)
+    digits = _DIGITS_UPPER if kind == "upper" else _DIGITS_LOWER
+    v = 0
+    for ch in body:
+        v = v * 36 + digits.index(ch)
+    v -= 10 * 36 ** (w - 1)             # first letter form ('A00..0') is the first value after the previous segment
+    v += 10 ** w
+    if kind == "lower":
+        v += 26 * 36 ** (w - 1)
+    return v
